@@ -510,6 +510,7 @@ def run_check(pid, tier, seed, replay):
     side_all = {}
     fails = []
     harness_err = None
+    harness_crashed = False
     samples = []
     dist = {}
     ctxs = []
@@ -561,6 +562,20 @@ def run_check(pid, tier, seed, replay):
         rc2, o2 = run_harness(binp, g, pid, outdir, seed, n, shards, cases_in=cases_in, tier=tier,
                               timeout=g.get("timeout_" + tier, 1500))
         if rc2 != 0:
+            cur = os.path.join(outdir, "current_case.json")
+            if os.path.exists(cur) and re.search(r"^(panic:|fatal error:|SIGSEGV|goroutine \d+ \[running\])", o2, flags=re.M):
+                # the test process died while a case was running: that case is the concrete failing input
+                try:
+                    cin = json.load(open(cur)).get("input")
+                except ValueError:
+                    cin = None
+                m2 = re.search(r"^(panic:.*|fatal error:.*)$", o2, flags=re.M)
+                violations.append(("counterexample", "process-crash",
+                                   {"case": {"input": cin}, "harness": g["test"], "signature": "process-crash",
+                                    "observed": (m2.group(1) if m2 else "crash")[:300], "output_tail": o2[-2500:],
+                                    "meaning": "the code under test crashed the process (panic outside the calling goroutine or fatal runtime error) while this case was running"}, cin is None))
+                harness_crashed = True
+                break
             harness_err = "harness %s failed (rc=%d):\n%s" % (g["test"], rc2, o2[-4000:])
             break
         m = re.findall(r"^VERIF-DIST (.*)$", o2, flags=re.M)
